@@ -1,9 +1,10 @@
 import Duckling.Lemmas.LexAtoms
+import Duckling.Lemmas.LexGroup
 /-
   Flat expressions over ALL kinds of leaf values — unsigned numbers, variable names (among any set of names in scope), TRUE / FALSE,
-  string literals — joined by any of the fourteen operators, with any layout of blanks: the scanner produces exactly the
-  alternating list of value and operator tokens.  (Parenthesised groups are single tokens for the scanner and are evaluated by a
-  recursive call; they are not covered here.)
+  string literals, parenthesised groups `( … )` / `!( … )` around ANY balanced text — joined by any of the fourteen operators, with any
+  layout of blanks: the scanner produces exactly the alternating list of value and operator tokens.  (A parenthesised group is a
+  single token for the scanner — Lemmas/LexGroup — and is evaluated by a recursive call: Lemmas/EvalGroup.)
 -/
 namespace Duckling
 
@@ -13,6 +14,7 @@ inductive Atom
   | tru
   | fls
   | str (content : Str)
+  | grp (neg : Bool) (inner : Str)
 
 def Atom.text : Atom → Str
   | .num ds => ds
@@ -20,6 +22,7 @@ def Atom.text : Atom → Str
   | .tru => ['T', 'R', 'U', 'E']
   | .fls => ['F', 'A', 'L', 'S', 'E']
   | .str c => ['"'] ++ c ++ ['"']
+  | .grp neg inner => grpText neg inner
 
 def Atom.tok : Atom → Tok
   | .num ds => ⟨.num, ds, false⟩
@@ -27,6 +30,7 @@ def Atom.tok : Atom → Tok
   | .tru => ⟨.bool, ['T', 'R', 'U', 'E'], false⟩
   | .fls => ⟨.bool, ['F', 'A', 'L', 'S', 'E'], false⟩
   | .str c => ⟨.str, c, false⟩
+  | .grp neg inner => ⟨.grp, '(' :: (inner ++ [')']), neg⟩
 
 /-- no name in scope contains a character that separates tokens -/
 def NamesOk (names : List Str) : Prop := ∀ nm ∈ names, ∀ ch ∈ nm, ¬ Delim ch
@@ -37,6 +41,7 @@ def GoodAtom (names : List Str) : Atom → Prop
   | .tru => True
   | .fls => True
   | .str c => ∀ ch ∈ c, (ch == '"') = false
+  | .grp _ inner => GoodGrp inner ∧ NoParenNames names
 
 theorem delim_endsNum (c : Char) (h : Delim c) : EndsNum c := by
   rcases h with h | h
@@ -72,6 +77,10 @@ theorem atom_head (names : List Str) (a : Atom) (ha : GoodAtom names a) :
   | tru => exact ⟨'T', _, rfl, by decide, by decide⟩
   | fls => exact ⟨'F', _, rfl, by decide, by decide⟩
   | str c => exact ⟨'"', _, rfl, by decide, by decide⟩
+  | grp neg inner =>
+    cases neg with
+    | false => exact ⟨'(', _, rfl, by decide, by decide⟩
+    | true => exact ⟨'!', _, rfl, by decide, by decide⟩
 
 theorem atom_text_pos (names : List Str) (a : Atom) (ha : GoodAtom names a) : 0 < a.text.length := by
   obtain ⟨c, r, h, _⟩ := atom_head names a ha
@@ -181,6 +190,8 @@ theorem steps_atom_delim (names : List Str) (hn : NamesOk names) (inp : Array Ch
     have e : (Atom.str content).text.length = content.length + 2 := by simp [Atom.text]
     rw [e]
     exact h
+  | grp neg inner =>
+    exact ⟨(grpText neg inner).length, by simp [Atom.text], steps_grp names ha.2 inp off out neg inner ha.1 hat⟩
 
 /-- **A2**: an atom at the end of the text -/
 theorem steps_atom_end (names : List Str) (inp : Array Char) (off : Nat) (out : List Tok) (a : Atom)
@@ -208,6 +219,9 @@ theorem steps_atom_end (names : List Str) (inp : Array Char) (off : Nat) (out : 
     have e : (Atom.str content).text.length = content.length + 2 := by simp [Atom.text]
     refine ⟨content.length + 2, _, by omega, ?_, h, by simp [finOut, lexFinish, sO, Atom.tok]⟩
     simp only [sO]; omega
+  | grp neg inner =>
+    exact ⟨(grpText neg inner).length, _, by simp [Atom.text], by simpa [sO, Atom.text] using hend,
+      steps_grp names ha.2 inp off out neg inner ha.1 hat, by simp [finOut, lexFinish, sO, Atom.tok]⟩
 
 end Duckling
 
